@@ -81,6 +81,8 @@ type beRec struct {
 	expVal interface{}
 	expAt  int64
 	expOK  bool
+
+	dump []byte // bytes produced by a dump operation
 }
 
 func (r *beRec) id() string { return fmt.Sprintf("c%d.%d", r.client, r.idx) }
@@ -366,6 +368,7 @@ func (r *beRun) exec(ci, oi int, op *BEOp) *beRec {
 			var buf bytes.Buffer
 
 			rec.n, rec.err = r.bk.dump(&buf)
+			rec.dump = buf.Bytes()
 		case "restore":
 			rec.n, rec.err = r.bk.restore(bytes.NewReader(r.setupDump))
 		case "load":
